@@ -42,6 +42,8 @@ THEOREMS = [P + n for n in [
     "pushdown_dnf_common_predicate", "dnf_implies_disjunction_of_common", "pushdown_dnf_single_branch_unsound",
     "pushdown_projections_preserves", "pushdown_projections_needs_no_distinct", "projection_guards_present",
     "append_cte_keeps_scoping", "eliminate_subqueries_forward_reference_witness",
+    "rename_with_fresh_cache_renames_all", "rename_all_leaves_no_old", "rename_with_stale_cache_witness",
+    "merge_cache_clears_present",
     "decorrelate_scalar_aggregate", "decorrelate_constant_zero_fallback_unsound", "decorrelate_null_of_existing_group_unsound",
     "eliminate_left_join_on_unique_key", "unique_key_gives_at_most_one_match", "eliminate_left_join_needs_unique",
     "eliminate_inner_join_unsound", "eliminate_cross_join_single_row", "eliminate_cross_join_at_most_one_row_unsound",
@@ -288,6 +290,22 @@ def translate(chk: Check) -> str:
     if not found_pj:
         changed("pushdown_projections: keep-all guard not found")
 
+    # merge_subqueries: which cache invalidation follows the in-place merge of a CTE / derived table
+    cache_clears = []
+    for fname in ("merge_ctes", "merge_derived_tables"):
+        fn = _fn(ms, fname)
+        got = None
+        if fn is not None:
+            for n in ast.walk(fn):
+                if isinstance(n, ast.If) and any(isinstance(st, ast.Expr) and ast.unparse(st).startswith("_rename_inner_sources(") for st in n.body):
+                    calls = [ast.unparse(st) for st in n.body if isinstance(st, ast.Expr) and ast.unparse(st).startswith("outer_scope.clear")]
+                    m_ = re.fullmatch(r"outer_scope\.(clear_cache|clear_column_cache)\(\)", calls[-1]) if calls else None
+                    got = m_.group(1) if m_ else "none"
+        if got is None:
+            changed(f"{fname}: merge block not found")
+            got = "none"
+        cache_clears.append((fname, got))
+
     # optimize_joins._is_reorderable
     ir = _fn(src("optimize_joins.py"), "_is_reorderable")
     ret = ast.unparse(ir.body[-1]) if ir is not None else ""
@@ -328,6 +346,7 @@ def translate(chk: Check) -> str:
         "def singleRowGuards : List SingleRowAtom := " + lst(single_row),
         f"def reorderRequiresNoSide : Bool := {b(reorder)}",
         "def projKeepAll : List ProjAtom := " + lst(proj_atoms),
+        "def mergeCacheClears : List (String × String) := " + lst('("%s", "%s")' % c for c in cache_clears),
         "end SqlglotModel.Generated.C03",
     ]
     return "\n".join(L) + "\n"
@@ -1001,6 +1020,53 @@ class QGen:
         return sql, total
 
 
+class NestGen:
+    """2-3 nesting levels of derived tables whose innermost TABLE NAMES collide with sources of the outer query:
+    inlining a level forces `_rename_inner_sources` (x -> x_2), which must carry every column along"""
+
+    def __init__(self, rng):
+        self.rng = rng
+
+    def level0(self, t):
+        r = self.rng
+        w = f" WHERE {t}.{r.choice('ab')} {r.choice(CMP)} {r.choice([0, 1, 2])}" if r.random() < 0.6 else ""
+        if r.random() < 0.3:
+            t2 = r.choice([u for u in "xyz" if u != t])
+            return f"SELECT {t}.a AS a, {t2}.b AS b FROM {t} JOIN {t2} ON {t}.a = {t2}.a{w}", [t, t2]
+        return f"SELECT {t}.a AS a, {t}.b AS b FROM {t}{w}", [t]
+
+    def nest(self, depth):
+        r = self.rng
+        t = r.choice("xyz")
+        sql, tables = self.level0(t)
+        names = ["i", "j", "k"]
+        for d in range(depth):
+            al = names[d]
+            w = f" WHERE {al}.{r.choice('ab')} {r.choice(CMP)} {r.choice([0, 1, 2, 3])}" if r.random() < 0.3 else ""
+            if r.random() < 0.25:
+                t2 = r.choice("xyz")
+                tables.append(t2)
+                sql = f"SELECT {al}.a AS a, {t2}.b AS b FROM ({sql}) AS {al} JOIN {t2} ON {al}.b = {t2}.a{w}"
+            else:
+                sql = f"SELECT {al}.a AS a, {al}.b AS b FROM ({sql}) AS {al}{w}"
+        return sql, tables
+
+    def query(self):
+        r = self.rng
+        inner, tables = self.nest(r.choice([0, 1, 1, 2]))
+        c = r.choice(tables)  # the outer query reads a source named like an inner table
+        other = f"{c}" if r.random() < 0.6 else f"(SELECT {c}.a AS a, {c}.b AS b FROM {c}) AS {c}"
+        on = f"m.{r.choice('ab')} = {c}.{r.choice('ab')}"
+        kind = r.choice(["JOIN", "JOIN", "LEFT JOIN", "CROSS JOIN"])
+        on_sql = "" if kind == "CROSS JOIN" else f" ON {on}"
+        if r.random() < 0.5:
+            frm = f"({inner}) AS m {kind} {other}{on_sql}"
+        else:
+            frm = f"{other} {kind} ({inner}) AS m{on_sql}"
+        where = f" WHERE {r.choice(['m', c])}.{r.choice('ab')} {r.choice(CMP)} {r.choice([0, 1, 2])}" if r.random() < 0.4 else ""
+        return f"SELECT m.a AS ma, m.b AS mb, {c}.a AS ca, {c}.b AS cb FROM {frm}{where}", False
+
+
 WITNESSES = [
     # necessity witnesses of Properties/C03.lean and DESIGN §6 rows as concrete SQL + data
     ("SELECT x.a AS xa, y.a AS ya FROM (SELECT * FROM x) AS x FULL JOIN y ON x.a = y.a WHERE x.b > 0", {"x": [], "y": [[1, 1]], "z": []}),
@@ -1028,6 +1094,10 @@ WITNESSES = [
     ("SELECT x.a AS xa, y.a AS ya FROM x LEFT JOIN y ON x.a = y.a JOIN z ON y.a = z.a", {"x": [[1, 1]], "y": [], "z": [[1, 1]]}),
     ("SELECT x.a AS xa FROM x RIGHT JOIN (SELECT a, b FROM y) AS y ON x.a = y.a RIGHT JOIN (SELECT a, b FROM z) AS z ON y.a = z.a WHERE y.b > 1", {"x": [], "y": [], "z": [[1, 1]]}),
     ("SELECT p.a AS pa FROM (SELECT 1 AS a FROM z) AS p FULL JOIN x ON p.a = x.b", {"x": [[1, 2]], "y": [], "z": []}),
+    # nested derived tables whose innermost table name collides with an outer source (rename must carry the columns)
+    ("SELECT m.a AS ma, x.b AS xb FROM (SELECT i.a AS a FROM (SELECT x.a AS a FROM x WHERE x.b = 2) AS i) AS m JOIN x ON m.a = x.b", {"x": [[1, 1], [1, 2], [2, None], [None, 2], [3, 3]], "y": [], "z": []}),
+    ("SELECT m.a AS ma, x.b AS xb FROM x JOIN (SELECT i.a AS a FROM (SELECT x.a AS a FROM x WHERE x.b = 2) AS i) AS m ON m.a = x.b", {"x": [[1, 1], [1, 2], [2, None], [None, 2], [3, 3]], "y": [], "z": []}),
+    ("SELECT m.a AS ma, m.b AS mb, y.b AS yb FROM (SELECT x.a AS a, y.b AS b FROM x JOIN y ON x.a = y.a) AS m JOIN y ON m.b = y.a", {"x": [[1, 1], [2, 2]], "y": [[1, 1], [2, 2], [2, 1]], "z": []}),
     # pushdown_dnf: only a predicate common to ALL disjuncts may be pushed (known finding C11-or-in-where-over-join)
     ("SELECT y.a AS ya FROM y CROSS JOIN z WHERE ((z.b * y.a) IS NULL OR y.a BETWEEN 0 AND 0)", {"x": [], "y": [[None, None]], "z": [[None, None]]}),
     ("SELECT y.a AS ya FROM y CROSS JOIN z WHERE (y.a = 1 AND z.b = 1) OR (y.a = 2 AND z.b IS NULL)", {"x": [], "y": [[1, 1], [2, 2], [3, 3]], "z": [[1, 1], [None, None]]}),
@@ -1189,6 +1259,11 @@ def search(chk: Check, hints: list, budget_s: float) -> None:
     rules_all = rule_fns()
     singles = [(r.__name__, [rules_all[0], r]) for r in rules_all[1:] if r.__name__ not in ("quote_identifiers",)]
     prefixes = [(f"prefix-{i}", rules_all[:i]) for i in range(2, len(rules_all))]
+    body = [r for r in rules_all[1:] if r.__name__ != "quote_identifiers"]
+    pairs = [(f"pair:{a.__name__}+{b.__name__}", [rules_all[0], a, b]) for i, a in enumerate(body) for b in body[i + 1:]]
+    minus_one = [(f"minus:{r.__name__}", [x for x in rules_all if x is not r]) for r in body]
+    minus_elim = [c for c in minus_one if c[0] == "minus:eliminate_subqueries"]
+    single_names = {n for n, _ in singles}
     tried = found = 0
     outcomes: dict = {}
 
@@ -1198,13 +1273,13 @@ def search(chk: Check, hints: list, budget_s: float) -> None:
             tried += 1
             res, oc = oracle(duck, sql, total, rules, label)
             outcomes[oc] = outcomes.get(oc, 0) + 1
-            chk.count(f"search:{label if not label.startswith('prefix') else 'prefix'}:{oc}")
+            chk.count(f"search:{label.split(':')[0] if ':' in label else (label if not label.startswith('prefix') else 'prefix')}:{oc}")
             if res:
                 found += 1
                 sql2, db2 = shrink(duck, sql, total, rules, label, db)
                 total2 = total and " ORDER BY " in sql2
                 what = oracle(duck, sql2, total2, rules, label)[0] or res
-                rule = label if label not in ("optimize",) and not label.startswith("prefix") else attribute(duck, sql2, total2, rules_all)
+                rule = label if label in single_names else attribute(duck, sql2, total2, rules_all)
                 chk.report_violation(f"{rule}:" + skeleton(sql2), what,
                                      {"sql": sql2, "total_order": total2, "db": db2, "rules": [r.__name__ for r in rules], "label": label},
                                      context={"rule": rule})
@@ -1215,7 +1290,7 @@ def search(chk: Check, hints: list, budget_s: float) -> None:
     full = [("optimize", rules_all)]
     for sql, db in WITNESSES:
         duck.fresh(db)
-        consider(sql, False, db, full + singles)
+        consider(sql, False, db, full + singles + minus_elim)
         chk.case(("witness", sql), nontrivial=True)
     for sql in hints[:20]:
         for _ in range(6):
@@ -1223,14 +1298,25 @@ def search(chk: Check, hints: list, budget_s: float) -> None:
             duck.fresh(db)
             consider(sql, False, db, full + singles)
     g = QGen(rng)
+    ng = NestGen(rng)
     while time.time() - t0 < budget_s and len(chk.violations) < 4:
         db = rand_db(rng)
         duck.fresh(db)
         for _ in range(12):
+            if rng.random() < 0.12:
+                # nested derived tables with name collisions: every rule alone, sampled pairs, the pipeline minus one rule
+                sql, total = ng.query()
+                cfg = full + singles + rng.sample(pairs, chk.pick(4, 12)) + minus_elim + rng.sample(minus_one, chk.pick(2, 6))
+                consider(sql, total, db, cfg)
+                chk.count("search:shape:nested-collision")
+                chk.case(("nest", sql, repr(db)), nontrivial=True, sample={"sql": sql} if tried % 97 == 0 else None)
+                continue
             sql, total = g.query()
             cfg = list(full)
             k = rng.random()
-            if k < 0.5:
+            if k < 0.1:
+                cfg += rng.sample(pairs, 2) + rng.sample(minus_one, 1)
+            elif k < 0.5:
                 cfg += rng.sample(singles, 3)
             elif k < 0.7 or not chk.quick:
                 cfg += rng.sample(prefixes, 2 if chk.quick else len(prefixes))
@@ -1239,7 +1325,7 @@ def search(chk: Check, hints: list, budget_s: float) -> None:
             if time.time() - t0 > budget_s:
                 break
     chk.search_info = {"ran": True, "budget_s": budget_s, "executions": tried, "violating": found, "outcomes": outcomes,
-                       "oracle": "original vs optimized SQL on DuckDB: equal output column names and row multisets (sequences under a total ORDER BY); full optimize(), single rules after qualify, pipeline prefixes"}
+                       "oracle": "original vs optimized SQL on DuckDB: equal output column names and row multisets (sequences under a total ORDER BY); full optimize(), single rules after qualify, pairs of rules after qualify, the pipeline minus one rule, pipeline prefixes"}
 
 
 def run(chk: Check) -> None:
